@@ -19,7 +19,7 @@ LEVEL = "exploration"
 RULE = ("a case is one store of 0-12 entries (real cached calls of 1-2 functions returning bytes of chosen sizes, plus empty "
         "32-hex 'zero-size' entries), access times set with os.utime (ties, increasing, seconds to months), and one "
         "(bytes_limit, items_limit, age_limit) triple from {None, 0, exact fit, fit-1, half, '1K', '0.5K', huge} x "
-        "{None, 0, 1, n-1, n, n+1} x {None, 0s, between two entries, older than all}; distinct_nontrivial counts distinct "
+        "{None, 0, 1, n-1, n, n+1} x {None, 0s, between two entries, older than all, a fractional limit 0.45 s away from one entry}; distinct_nontrivial counts distinct "
         "(sizes, ages, limits) stores in which at least one entry was evicted and at least one limit was given")
 ASSUMPTIONS = [
     "no concurrent writer; the check's own stat scan immediately before the call is the inventory",
